@@ -15,6 +15,18 @@ CHECKS = {
    note="Trusted: OrderedDict primitive contracts on raw keys (cross-checked against CPython each run), str.upper idempotent "
         "(checked on all code points each run), the pyvc executor and z3. Bounded only: constructors/copy/popitem/|,|=/fromkeys/==/sorted_keys.",
    technique="contract-based deductive verification: AST->z3 VCs over a map view (pyvc), loop rule for update; bounded stand-in for C-level ops"),
+ "C16": dict(
+   category="proof", design_ref="DESIGN.md section 8 C16",
+   text="The real descriptor closures (create_single_property p_get/p_set/p_del for DTSTART, DTEND, DUE), _get/_set/_del_duration and the "
+        "start/end/duration getters and setters of Event and Todo are symbolically executed over an arbitrary component view. Proved for all "
+        "states: every setter/deleter preserves 'not (END and DURATION)' (so it holds after every edit history, by induction), whole-view "
+        "effect of each setter from ANY state, duration == end - start, end == start + DURATION / start + 1 day / start, and that the getters "
+        "raise only InvalidCalendar / IncompleteComponent on every state of the map. Edit histories and parsed states on the real classes are "
+        "a labelled bounded stand-in.",
+   note="Trusted: CaselessDict contracts (proved in C17), value-class constructor contracts (vDDDTypes/vDuration: fresh object with .dt/.td), "
+        "date arithmetic facts (contracts/dt.py, cross-checked natively), results within year 1..9999; stored values are value-class instances "
+        "(type invariant); _get_start_end_duration and is_date are inlined.",
+   technique="contract-based deductive verification: AST->z3 VCs (pyvc), helper contracts proved against bodies, statement-level postconditions per getter/setter; bounded stand-in"),
 }
 NA_REASON = "check not built yet (build round in progress; DESIGN.md section 8 describes the planned contracts)"
 
